@@ -9,6 +9,7 @@ import KafkaVerif.Lemmas.Murmur2
 import KafkaVerif.Lemmas.BalancerRange
 import KafkaVerif.Lemmas.RoundRobin
 import KafkaVerif.Lemmas.LeastBytes
+import KafkaVerif.Lemmas.BalancerPool
 import KafkaVerif.Gen.BalancerConsts
 
 namespace KV.C13
@@ -312,6 +313,107 @@ theorem leastBytes_min (parts : List Int) (hp : parts ≠ []) (hnd : parts.Nodup
     obtain ⟨q, hq, hm, hmin, _⟩ := lb_step lb parts hist sz hp h
     exact ⟨q, hq, hm, hmin⟩
 
+/-! ## 9. What a Writer can supply: `(*Writer).partitions` + `loadCachedPartitions` -/
+
+/-- metadata as a broker answers it: a topic entry without error lists at least one partition (assumption about the
+broker, recorded in the evidence; the Writer does not check it) -/
+def MetaWF (resp : List MetaTopic) : Prop := ∀ t ∈ resp, t.err = 0 → 0 < t.nparts
+
+/-- a topic-level error code in the metadata answer is returned as the error and the balancer is NOT called
+(no list, in particular no empty list, is offered) -/
+theorem writer_error_no_offer (cache : Option Nat) (resp : List MetaTopic) (topic : String) (t : MetaTopic)
+    (hf : resp.find? (·.name == topic) = some t) (he : t.err ≠ 0) :
+    writerOffer cache resp topic = .error t.err := by
+  simp [writerOffer, writerPartitions, hf, he]
+
+/-- no entry for the topic: `UnknownTopicOrPartition`, no call -/
+theorem writer_missing_topic (cache : Option Nat) (resp : List MetaTopic) (topic : String)
+    (hf : resp.find? (·.name == topic) = none) : writerOffer cache resp topic = .error 3 := by
+  simp [writerOffer, writerPartitions, hf]
+
+/-- every list a Writer offers is `[0, …, n-1]` for the partition count of the topic's entry: non-empty (for
+well-formed metadata), duplicate-free, and of the entry's length — the hypotheses of the per-balancer theorems above
+(`hash_offered`, `refhash_offered`, `crc32_offered`, `murmur2_offered`, `roundRobin_offered`, `leastBytes_min`). -/
+theorem writer_offer_shape (cache : Option Nat) (resp : List MetaTopic) (topic : String) (l : List Int)
+    (hwf : MetaWF resp) (ho : writerOffer cache resp topic = .ok l) :
+    ∃ t, resp.find? (·.name == topic) = some t ∧ t.err = 0 ∧ l = iota t.nparts ∧ l ≠ [] ∧ l.Nodup := by
+  unfold writerOffer writerPartitions at ho
+  split at ho
+  · cases ho
+  · rename_i n hn
+    split at hn
+    · cases hn
+    · rename_i t hf
+      split at hn
+      · cases hn
+      · rename_i he
+        have he0 : t.err = 0 := by simpa using he
+        cases hn
+        cases ho
+        have hpos : 0 < t.nparts := hwf t (List.mem_of_find?_eq_some hf) he0
+        refine ⟨t, hf, he0, loadCached_iota cache t.nparts, ?_, ?_⟩
+        · rw [loadCached_iota]
+          intro h
+          have : (iota t.nparts).length = 0 := by rw [h]; rfl
+          simp [iota] at this
+          omega
+        · rw [loadCached_iota]
+          unfold iota
+          exact List.Pairwise.map Int.ofNat (fun a b h hab => h (Int.ofNat.inj hab)) List.nodup_range
+
+/-- … and the built-in balancers answer with a member of that list (keyed Hash as the instance; the other balancers'
+theorems apply to the same list through `writer_offer_shape`) -/
+theorem writer_hash_lands_in_offer (cache : Option Nat) (resp : List MetaTopic) (topic : String) (l : List Int)
+    (hwf : MetaWF resp) (ho : writerOffer cache resp topic = .ok l) (hlen : l.length < 2147483648)
+    (rr : RoundRobin) (key : Bytes) :
+    ∃ p, (hashBalance rr (some key) l).2 = some p ∧ p ∈ l := by
+  obtain ⟨t, _, _, hl, hne, _⟩ := writer_offer_shape cache resp topic l hwf ho
+  subst hl
+  have hn : 0 < t.nparts := by
+    cases h : t.nparts with
+    | zero => exact absurd (by simp [iota, h]) hne
+    | succ k => exact Nat.succ_pos k
+  have hlt : t.nparts < 2147483648 := by simpa [iota] using hlen
+  exact hash_offered rr key t.nparts hn hlt
+
+/-! ## 10. The hasher is used exclusively (concurrent Balance calls on one Hash / ReferenceHash value) -/
+
+/-- regenerated on every run: along both paths of both methods the hasher is acquired (h.lock resp. fnv1aPool.Get)
+before its first use and released only by a deferred Unlock / Put, i.e. after the last use; the methods have pointer
+receivers (the lock that is taken is the shared one, not a copy). -/
+theorem hasher_paths_owned :
+    ownedThroughout Gen.hashCustomPath = true ∧ ownedThroughout Gen.hashPooledPath = true ∧
+    ownedThroughout Gen.refHashCustomPath = true ∧ ownedThroughout Gen.refHashPooledPath = true ∧
+    Gen.hashPtrRecv = true ∧ Gen.refHashPtrRecv = true := by decide
+
+/-- the paths are not empty shells: each contains the three uses Reset / Write / Sum32 -/
+theorem hasher_paths_use :
+    ∀ path ∈ [Gen.hashCustomPath, Gen.hashPooledPath, Gen.refHashCustomPath, Gen.refHashPooledPath],
+      3 ≤ (path.filter (· == OwnEv.use)).length := by decide
+
+/-- what `ownedThroughout` means: at every use the caller is between its acquire and its release -/
+theorem owned_use_is_held (es : List OwnEv) (h : ownedThroughout es = true) (pre post : List OwnEv)
+    (he : es = pre ++ OwnEv.use :: post) : holdingAfter pre false = true :=
+  ownedRun_use_held es false false h pre post he
+
+/-- the pool side, for every sequence of Get / Put / discard events of any number of callers: an object held by one
+caller is held by no other and is not lying in the pool (so no later Get can hand it out before its Put).  Together
+with `hasher_paths_owned` + `owned_use_is_held`: Reset; Write; Sum32 of one Balance call are never interleaved with
+another call's operations on the same hasher, so the sequential theorems (`hash_eq_sarama`, `refhash_eq_sarama`,
+`hashed_pure`) describe every interleaving.  `sync.Pool` (Get returns a pooled or a fresh object, never one that is
+checked out) and `sync.Mutex` are trusted. -/
+theorem pool_exclusive (evs : List PoolEv) (p : Pool) (hr : Pool.init.run evs = some p) :
+    (∀ c o c', (c, o) ∈ p.held → (c', o) ∈ p.held → c = c') ∧ (∀ c o, (c, o) ∈ p.held → o ∉ p.free) := by
+  have hi := Pool.inv_run evs Pool.init p Pool.inv_init hr
+  exact ⟨hi.excl, hi.notFree⟩
+
+/-- sharpness: a Put that is not deferred (the hasher goes back before it is used) is rejected by the discipline, and
+in the pool model a second caller then obtains the very object the first one is still using -/
+theorem early_put_counterexample :
+    ownedThroughout [.acquire, .release, .use, .use, .use] = false ∧
+    (∃ p, Pool.init.run [.get 1 none, .put 1, .get 2 (some 0)] = some p ∧ (2, 0) ∈ p.held) := by
+  refine ⟨by decide, ⟨_, rfl, by decide⟩⟩
+
 /-! ## 8. Non-vacuity: concrete values meet the hypotheses and exercise the definitions -/
 
 example : (iota 3) ≠ [] ∧ (iota 3).length < 4294967296 ∧ (iota 3).Nodup := by decide
@@ -320,5 +422,10 @@ example : (RoundRobin.run ⟨2, 0⟩ [10, 20, 30] 7).2 = [some 10, some 10, some
 example : ((⟨[]⟩ : LeastBytes).balance 5 [2, 0, 1]).2 = some 0 := by decide
 example : LBReach [2, 0, 1] ((⟨[]⟩ : LeastBytes).balance 5 [2, 0, 1]).1 [(0, 5)] :=
   LBReach.step ⟨[]⟩ [] 5 0 LBReach.init (by decide)
+example : MetaWF [⟨"decoy", 0, 7⟩, ⟨"t", 0, 3⟩] ∧ writerOffer none [⟨"decoy", 0, 7⟩, ⟨"t", 0, 3⟩] "t" = .ok [0, 1, 2] := by
+  refine ⟨by intro t ht h; simp at ht; rcases ht with rfl | rfl <;> decide, by rfl⟩
+example : writerOffer none [⟨"t", 5, 0⟩] "t" = .error 5 := by rfl
+example : ∃ p, Pool.init.run [.get 1 none, .get 2 none, .put 1, .get 3 (some 0)] = some p ∧ p.held = [(3, 0), (2, 1)] :=
+  ⟨_, rfl, rfl⟩
 
 end KV.C13
